@@ -741,6 +741,12 @@ def check_new_writers(ctx, rule, adts, free=("rng",), harmless=None):
         for m in sorted(ms, key=lambda f: f.key):
             if m.key in base or not (m.pub or m.impl_trait):
                 continue
+            # the body of a reviewed public operation given a name of its own (`impl Filter { fn insert(..) { Self::insert(self, ..) } }`
+            # with the old body now an inherent method): it was expanded back into that operation, where every rule has looked at it
+            if any(cal == m.key and fwd_ and r_ in reviewed_pub and prog.fn(r_) is not None and prog.fn(r_).arg_count == m.arg_count
+                   for r_, cal, fwd_ in getattr(prog, "inlined_pairs", [])):
+                ctx.ok(rule, "%s::%s" % (adt, m.name), "new entry point %s is the body of a reviewed public operation with the same signature (expanded in place there)" % m.name, nontrivial=False)
+                continue
             n_new += 1
             ctx.analysed_fns.add(m.key)
             bad = {}
